@@ -47,15 +47,8 @@ func errName(err error) string {
 	if err == nil {
 		return "ok"
 	}
-	switch err.Error() {
-	case "invalid point encoding":
-		return "invalidPointEncoding"
-	case "nil or empty scalar":
-		return "nilScalar"
-	case "invalid scalar length":
-		return "scalarLength"
-	case "scalar too big":
-		return "scalarTooBig"
+	if k := secp.VerifErrKind(err); k != "" {
+		return k
 	}
 	if strings.HasPrefix(err.Error(), "encoding/hex:") {
 		return "hexError"
@@ -64,10 +57,10 @@ func errName(err error) string {
 }
 
 func panicName(r any) string {
-	s := fmt.Sprint(r)
-	if s == "zero-length DST" {
+	if secp.VerifIsZeroLenDST(r) {
 		return "zeroLenDST"
 	}
+	s := fmt.Sprint(r)
 	return strings.ReplaceAll(s, " ", "_")
 }
 
